@@ -101,6 +101,12 @@ def loop_scenario(ctx, n, dd, ad, cc=None, kind=None):
         sc["rj"] = [rng.choice(LAT + TINY) for _ in range(rng.randint(2, 7))]
     if rng.random() < 0.1:
         sc["finish"] = "none"
+    elif rng.random() < 0.12 and sc.get("path") != "direct":
+        # an unbounded source that stops at an instant: everything sent before it must still get through
+        sc["finish_at"] = rng.choice([[1, 2], [1, 1], [3, 2], [2, 1]])
+        sc.pop("path", None); sc.pop("fj", None); sc.pop("rj", None)
+        sc["fwd"], sc["rev"] = rng.choice(LAT), rng.choice(LAT)      # a positive round-trip time: an unbounded source never ends an instant otherwise
+        sc["dd"] = sorted(set(sc["dd"]) | {rng.randint(1, 12) for _ in range(rng.choice([0, 1, 2]))})
     return sc
 
 
